@@ -1146,7 +1146,7 @@ func (p *pipe) Do(ctx context.Context, cmd Completed) (resp RedisResult) {
 		resp = NewErrorResult(p.Error())
 	}
 
-	if left := p.decrWaitsAndIncrRecvs(); state == 0 && left != 0 {
+	if left := p.decrWaitsAndIncrRecvs(); waits == 1 && left != 0 {
 		p.background()
 	}
 	return resp
@@ -1256,7 +1256,7 @@ func (p *pipe) DoMulti(ctx context.Context, multi ...Completed) *redisresults {
 			resp.s[i] = err
 		}
 	}
-	if left := p.decrWaitsAndIncrRecvs(); state == 0 && left != 0 {
+	if left := p.decrWaitsAndIncrRecvs(); waits == 1 && left != 0 {
 		p.background()
 	}
 	return resp
